@@ -208,7 +208,18 @@ def restore(imp, gid, saved):
 
 
 def handle_ids(h):
-    return sorted(i.node_id for i in h.interface_list)
+    """What a handle reports about its interfaces: the list, the name-keyed view, and - for services - the printed form."""
+    out = {'interface_list': sorted(i.node_id for i in h.interface_list)}
+    try:
+        out['interfaces'] = sorted(i.node_id for i in h.interfaces.values())
+    except Exception as e:
+        out['interfaces'] = f'raises {type(e).__name__}'
+    if type(h).__name__ in ('NetworkService', 'PortMirrorService'):
+        try:
+            out['printed'] = repr(h)
+        except Exception as e:
+            out['printed'] = f'raises {type(e).__name__}'
+    return out
 
 
 def check_state(ctx, imp, store, flavour, topo, script):
